@@ -38,8 +38,9 @@ def fixed_text(raw, style, mark='.'):
         return s.replace('.', mark)
     if raw >= 0:
         return '%d.%08d' % (c_div(raw, 256), 390625 * (raw & 255))
-    # "-%d.%08d", f / -256, -390625 * (f | -256)
-    return '-%d.%08d' % (c_div(raw, -256), -390625 * (raw | -256))
+    # "-%d.%08d", f / -256, -390625 * (f % 256)   (C remainder: sign of the dividend); confirmed against the
+    # installed libwayland by mc/bind_libwayland.py
+    return '-%d.%08d' % (c_div(raw, -256), -390625 * (raw - 256 * c_div(raw, 256)))
 
 
 def fixed_value(raw):
